@@ -111,10 +111,10 @@ func runChainCmd(args []string) {
 			}
 		}
 		if p.Isolation {
-			h2 := FilterForTenant(h, 1)
+			h2 := FilterForTenant(h, h.FocalTenant())
 			if e2, pi2 := NewExec(h2); pi2 == nil {
 				obs2 := e2.Run()
-				e.IsoDiff = CompareTenantView(h, obs, h2, obs2, 1)
+				e.IsoDiff = CompareTenantView(h, obs, h2, obs2, h.FocalTenant())
 				st.IsolationPairs++
 				if len(e.IsoDiff) > 0 {
 					fmt.Printf("ISOLATION case=%d events=%v\n", i, e.IsoDiff)
